@@ -57,6 +57,16 @@ type SubLog struct {
 	mu       sync.Mutex
 	events   []Notification
 	txs      int
+	// Stall, when non-nil, blocks the handler until it is closed (a subscriber that has
+	// stopped keeping up); what it was handed before is still recorded.
+	Stall chan struct{}
+}
+
+// Len is the number of notifications recorded so far.
+func (s *SubLog) Len() int {
+	s.mu.Lock()
+	defer s.mu.Unlock()
+	return len(s.events)
 }
 
 func (s *SubLog) Events() []Notification {
@@ -66,6 +76,9 @@ func (s *SubLog) Events() []Notification {
 }
 
 func (s *SubLog) handler(_ context.Context, rd xkv.TxReader) {
+	if s.Stall != nil {
+		<-s.Stall
+	}
 	s.mu.Lock()
 	defer s.mu.Unlock()
 	for ch := range rd {
@@ -260,8 +273,13 @@ func (c *Cluster) Restart(ctx context.Context, i int) error {
 
 // Subscribe attaches a recording subscriber to node i's current DB.
 func (c *Cluster) Subscribe(i int, name string, filtered bool, phase string) *SubLog {
+	return c.SubscribeStalled(i, name, filtered, phase, nil)
+}
+
+// SubscribeStalled is Subscribe with a handler that blocks until stall is closed.
+func (c *Cluster) SubscribeStalled(i int, name string, filtered bool, phase string, stall chan struct{}) *SubLog {
 	n := c.Nodes[i]
-	s := &SubLog{Node: i, Name: name, Filtered: filtered, Epoch: n.Epoch, Phase: phase}
+	s := &SubLog{Node: i, Name: name, Filtered: filtered, Epoch: n.Epoch, Phase: phase, Stall: stall}
 	if filtered {
 		n.DB.NewObservable(aspen.IgnoreHostLeaseholder).OnChange(s.handler)
 	} else {
